@@ -63,6 +63,28 @@ def _script0(kind, n):
     return dict(hs={}, steps=[('raw', body), ('eof',)], cuts=None, z=False)
 
 
+def _z_steps(ext):
+    opts = {}
+    for tok in ext.split(',')[0].split(';')[1:]:
+        k, _, v = tok.strip().partition('=')
+        opts[k.strip().lower()] = v.strip().strip('"')
+    try:
+        sb = int(opts.get('server_max_window_bits') or 15)
+        cb = int(opts.get('client_max_window_bits') or 15)
+    except ValueError:
+        sb = cb = 15
+    key = ('z', sb, cb, 'server_no_context_takeover' in opts, 'client_no_context_takeover' in opts)
+    if key not in _CACHE:
+        peer = deflate_peer.Peer(min(15, max(8, sb)), min(15, max(8, cb)), key[3], key[4])
+        body = b''
+        for j in range(14):
+            m = peer.compress(('companion context %d ' % j).encode() * 9)
+            body += F(1, m[:7], rsv=4, fin=0) + F(0, m[7:])
+            body += F(2, peer.compress(bytes([j]) * 300), rsv=4)
+        _CACHE[key] = [('raw', body), ('eof',)]
+    return _CACHE[key]
+
+
 class Companion(object):
     def __init__(self, k):
         self.k = int(k)
@@ -79,8 +101,10 @@ class Companion(object):
         self.n += 1
         sc = _script(kind, self.n)
         if sc.get('ext') and env.CASE_ENV.get('companion_ext'):
-            # negotiate exactly what the observed connection negotiates (anything keyed on the header text is shared)
-            sc = dict(sc, hs={'extra': [('Sec-WebSocket-Extensions', env.CASE_ENV['companion_ext'])]})
+            # negotiate exactly what the observed connection negotiates (anything keyed on the header text or on the
+            # parameters is shared), and speak it properly: a server side that honours those parameters
+            ext = env.CASE_ENV['companion_ext']
+            sc = dict(sc, hs={'extra': [('Sec-WebSocket-Extensions', ext)]}, steps=_z_steps(ext))
         self.world = simnet.World(lambda _i: simnet.ScriptServer([('hs', sc['hs'])] + sc['steps']), cuts=sc['cuts'], budget=50000)
         with simnet.Installed(self.world):
             if self.ws is None or self.n % 2:
